@@ -178,6 +178,11 @@ class FieldData:
       return None
 
   def _set_existing_field(self, fieldname, value, set_reference = False):
+    if value is None and fieldname in self.tagnames:
+      # as delete(): a removed tag leaves no datatype behind (and the line
+      # is registered again, if the tag is its identifier)
+      self.delete(fieldname)
+      return
     renaming_connected = False
     if self._gfa:
       if not set_reference and \
@@ -205,10 +210,7 @@ class FieldData:
                self._field_datatype(fieldname), fieldname)
          self._gfa._unregister_line(self)
     if value is None:
-      if fieldname in self.tagnames:
-        # as delete(): a removed tag leaves no datatype behind
-        self.delete(fieldname)
-      elif fieldname in self._data:
+      if fieldname in self._data:
         self._data.pop(fieldname)
     else:
       if self.vlevel >= 3:
